@@ -48,21 +48,46 @@ def resolve_sums(e):
     return e
 
 
+SUM_ATOMS = [False]     # Krylov checks: a summation that no equality determines becomes the atom sumf(lo, hi, lambda v. body)
+SUMF = z3.Function("sumf", I, I, z3.ArraySort(I, R), R)
+
+
 def ents_expr(ents):
     """the entry as one z3 Real term"""
     t = z3.RealVal(0)
     ents = [resolve_sums(e) for e in ents]
     if any(e.zf for e in ents):
         raise Unsupported("random-probe factors left in a deterministic expression")
-    if any(e.sums for e in ents):
+    if any(e.sums for e in ents) and not SUM_ATOMS[0]:
         raise Unsupported("a symbolic summation is left undetermined (operand without one-hot structure)")
     for e in ents:
         c = z3.And(*e.conds) if e.conds else z3.BoolVal(True)
-        t = t + z3.If(c, e.val, z3.RealVal(0))
+        body = z3.If(c, e.val, z3.RealVal(0)) if e.conds else e.val
+        for var, lo, hi in reversed(e.sums):       # innermost summation variable last
+            body = SUMF(iterm(lo), iterm(hi), z3.Lambda([var], body))
+        t = t + body
     return z3.simplify(t)
 
 
+_KEYCACHE = {}
+
+
+def _okey(t):
+    """name-insensitive structural key (fresh index variables 'x?12' all read 'x?'): used to orient commutative products
+    inside summation bodies, where the commutativity axiom cannot be instantiated"""
+    import re
+    k = _KEYCACHE.get(t.get_id())
+    if k is None:
+        k = re.sub(r"\?\d+", "?", t.sexpr())
+        if len(_KEYCACHE) > 200000:
+            _KEYCACHE.clear()
+        _KEYCACHE[t.get_id()] = k
+    return k
+
+
 def _mulv(a, b):
+    if SUM_ATOMS[0] and z3.is_expr(a) and z3.is_expr(b) and alg._num(a) is None and alg._num(b) is None and _okey(b) < _okey(a):
+        a, b = b, a
     return alg.rmul(a, b)
 
 
@@ -119,6 +144,9 @@ def eliminate(var, lo, hi, ents):
     return out
 
 
+CJ = z3.Function("cj_entry", R, R)
+RE = z3.Function("re_entry", R, R)
+ABS2 = z3.Function("abs2_entry", R, R)
 _VARCOUNT = [0]
 
 
@@ -172,7 +200,16 @@ class IArr(IdxND):
 
     def conj(self):
         if is_cplx(self.dtype):
-            raise Unsupported("complex conjugate in the index domain (entries range over R)")
+            if not SUM_ATOMS[0]:
+                raise Unsupported("complex conjugate in the index domain (entries range over R)")
+            # entries are opaque values; conjugation is an uninterpreted involution applied to the whole entry
+            return IArr(self.shape, lambda *ix: [Ent([], CJ(ents_expr(self.fn(*ix))))], self.dtype)
+        return self
+
+    @property
+    def real(self):
+        if is_cplx(self.dtype):
+            return IArr(self.shape, lambda *ix: [Ent([], RE(ents_expr(self.fn(*ix))))], np.float64)
         return self
 
     def astype(self, dt):
@@ -260,12 +297,14 @@ class IArr(IdxND):
     # ---- elementwise
     def _bcast(self, o):
         if self.ndim != o.ndim:
-            if self.ndim == 2 and o.ndim == 1:
-                o = IArr((1, o.shape[0]), lambda i, j: o.fn(j), o.dtype)
-            elif self.ndim == 1 and o.ndim == 2:
-                return IArr((1, self.shape[0]), lambda i, j: self.fn(j), self.dtype)._bcast(o)
+            if self.ndim > o.ndim:        # NumPy: prepend length-1 axes to the lower-rank operand
+                k = self.ndim - o.ndim
+                o0 = o
+                o = IArr((1,) * k + tuple(o0.shape), lambda *ix: o0.fn(*ix[k:]), o0.dtype)
             else:
-                raise Unsupported("broadcast of arrays of different rank")
+                k = o.ndim - self.ndim
+                s0 = self
+                return IArr((1,) * k + tuple(s0.shape), lambda *ix: s0.fn(*ix[k:]), s0.dtype)._bcast(o)
         shape, ma, mb = [], [], []
         for s, t in zip(self.shape, o.shape):
             sc, tc = SInt.lift(s).concrete(), SInt.lift(t).concrete()
@@ -316,9 +355,68 @@ class IArr(IdxND):
         raise Unsupported("power")
 
     def __truediv__(self, o):
+        if isinstance(o, IArr):
+            shape, fa, fb, dt = self._bcast(o)
+            return IArr(shape, lambda *ix: [Ent([], _mulv(ents_expr(fa(*ix)), alg.rinv(ents_expr(fb(*ix)))))], dt)
         s = SScal.lift(o)
         inv = s.recip()
         return self * inv
+
+    # ---- in-place forms: allowed on arrays the function allocated itself (FRAME); the value semantics is functional
+    def _inplace(self, r):
+        if not self.fresh:
+            CTX.require(z3.BoolVal(False), "in-place update of an array that is not freshly allocated (caller-visible mutation)")
+        r.fresh = True
+        return r
+
+    def __isub__(self, o):
+        return self._inplace(self - o)
+
+    def __iadd__(self, o):
+        return self._inplace(self + o)
+
+    def __itruediv__(self, o):
+        return self._inplace(self / o)
+
+    def __imul__(self, o):
+        return self._inplace(self * o)
+
+    # ---- comparisons: masks are 0/1 arrays
+    def _cmp(self, o, op):
+        if isinstance(o, IArr):
+            shape, fa, fb, _ = self._bcast(o)
+            return IArr(shape, lambda *ix: [Ent([], z3.If(op(ents_expr(fa(*ix)), ents_expr(fb(*ix))), z3.RealVal(1), z3.RealVal(0)))], np.bool_)
+        s = SScal.lift(o)
+        return IArr(self.shape, lambda *ix: [Ent([], z3.If(op(ents_expr(self.fn(*ix)), s.re), z3.RealVal(1), z3.RealVal(0)))], np.bool_)
+
+    def __gt__(self, o):
+        return self._cmp(o, lambda a, b: a > b)
+
+    def __lt__(self, o):
+        return self._cmp(o, lambda a, b: a < b)
+
+    def __ge__(self, o):
+        return self._cmp(o, lambda a, b: a >= b)
+
+    def __le__(self, o):
+        return self._cmp(o, lambda a, b: a <= b)
+
+    def _logic(self, o, both):
+        if isinstance(o, (bool, np.bool_)):
+            o = SBool(z3.BoolVal(bool(o)))
+        if isinstance(o, SBool):
+            t = o.term
+            return IArr(self.shape, lambda *ix: [Ent([], z3.If((z3.And if both else z3.Or)(ents_expr(self.fn(*ix)) != 0, t), z3.RealVal(1), z3.RealVal(0)))], np.bool_)
+        shape, fa, fb, _ = self._bcast(o)
+        return IArr(shape, lambda *ix: [Ent([], z3.If((z3.And if both else z3.Or)(ents_expr(fa(*ix)) != 0, ents_expr(fb(*ix)) != 0), z3.RealVal(1), z3.RealVal(0)))], np.bool_)
+
+    def __and__(self, o):
+        return self._logic(o, True)
+
+    def __or__(self, o):
+        return self._logic(o, False)
+
+    __rand__, __ror__ = __and__, __or__
 
     # ---- reductions
     def sum(self, axis=None, keepdims=False):
@@ -328,6 +426,14 @@ class IArr(IdxND):
             axis = 0
         ax = axis if axis >= 0 else self.ndim + axis
         n = self.shape[ax]
+        if keepdims:
+            shape = tuple(1 if j == ax else s for j, s in enumerate(self.shape))
+
+            def fnk(*idx):
+                v = fresh_idx("s")
+                full = list(idx[:ax]) + [v] + list(idx[ax + 1:])
+                return eliminate(v, 0, n, self.fn(*full))
+            return IArr(shape, fnk, self.dtype)
         shape = tuple(s for j, s in enumerate(self.shape) if j != ax)
 
         def fn(*idx):
